@@ -44,7 +44,7 @@ def selftest():
 
 
 def REQUIRED_COVER(tier):
-    return {'kind:short', 'kind:long', 'kind:same', 'noncanonical', 'aug', 'aug_e', 'aug:extra-owns-ref', 'pruned:inner', 'pruned:root', 'tree-hash', 'label:1023', 'values:equal-subtries'}
+    return {'kind:short', 'kind:long', 'kind:same', 'noncanonical', 'aug', 'aug_e', 'aug:extra-owns-ref', 'pruned:inner', 'pruned:root', 'tree-hash', 'tree-edit', 'label:1023', 'values:equal-subtries'}
 
 
 # ------------------------------------------------------------------ labels
@@ -143,6 +143,44 @@ def case_tree(rec, width, keys, kind):
     rec.state(('tree', width, tuple(sorted(keys)), kind))
     if len(keys) > 1:
         rec.nontriv(('tree', width, tuple(sorted(keys))))
+    # the map object goes on being used after it was serialised (sixth session): each edit - through set_int_key, by item assignment on
+    # the public .map, by .map.pop, by a new dict object - and then serialize() again: the canonical tree of the map AS IT IS NOW
+    if len(keys) <= 6:
+        cur = dict(refmap)
+        edits = [('set_int_key', keys[0]), ('map-item', keys[-1]), ('map-pop', keys[0]), ('map-assign', keys[-1])]
+        for tag, k in edits:
+            vl, vr = c09.val_for(k ^ 1, kind)[:2]
+            try:
+                if tag == 'set_int_key':
+                    hm.set_int_key(k, vl)
+                    cur[k] = vr
+                elif tag == 'map-item':
+                    hm.map[k] = vl
+                    cur[k] = vr
+                elif tag == 'map-pop':
+                    if len(cur) < 2:
+                        continue
+                    hm.map.pop(k)
+                    cur.pop(k)
+                else:
+                    hm.map = {k: vl}
+                    cur = {k: vr}
+                rec.trans()
+                try:
+                    want2 = RH.build(cur, width)
+                except RH.RefDictError:
+                    return      # the edited map has no encoding (a label does not fit a cell)
+                c2 = hm.serialize()
+                if c2 is None or c2.hash != want2.hash():
+                    rec.violation(f'tree:edit:{tag}', f'width {width} keys {keys[:8]}: after serialize() and the edit {tag}({k}) the next serialize() is not the canonical tree '
+                                  f'of the edited map', 'case_tree', args)
+                    return
+            except RH.RefDictError:
+                return
+            except Exception as e:
+                rec.violation(f'tree:edit:{tag}', f'width {width} keys {keys[:8]}: edit {tag}({k}) + serialize raised {exc_name(e)}: {e}', 'case_tree', args)
+                return
+        rec.covered('tree-edit')
 
 
 def shard_trees(rec, width, part, parts, full):
